@@ -247,6 +247,31 @@ def gs (c : List String) (impl : List String) : String :=
     verdict (joinWith " " impl == out) spec out
   | _, _, _, _, _, _, _, _ => "E E bad-case"
 
+/-! ### hot-upgrade hand-over in one process -/
+
+def up (c : List String) (impl : List String) : String :=
+  match kvNat c "half", kvNat c "idle", kvNat c "wait", kvNat c "h1" with
+  | some half, some idle, some wait, some h1 =>
+    -- the frame as 0,1,2,…: what the new connection's read buffer holds after the hand-over, then the rest arrives
+    let frameLen := half + 7
+    let frame : List UInt8 := (List.range frameLen).map (fun i => UInt8.ofNat (i % 251))
+    let halfOk := match handover (frame.take half) [] with
+      | some (b, _) => b ++ frame.drop half == frame
+      | none => false
+    let bolt := Gen.Shutdown.transferableXprotocol
+    let adopted := if bolt then idle + 1 + wait else 0
+    let adoptedH := if Gen.Shutdown.transferableHttp1 then h1 else 0
+    let oldSt := (lisShutdown ⟨Gen.Shutdown.ListenerRunning, true, true, true, true⟩ Gen.Shutdown.Upgrading).1.state
+    let na (b : Bool) (x : String) := if b then x else "na"
+    let out := s!"fds={1 + h1} oldstate={oldSt} adopted={adopted} adoptedh1={adoptedH} half={if halfOk then "ok" else "fail"} wait={na (wait == 1) "ok"} idle={na (idle > 0) "ok"} h1={na (h1 == 1) "ok"} new=srv newreq={idle + 2} exit=0"
+    let g (k : String) := (kv impl k).getD "?"
+    let spec := g "fds" == toString (1 + h1) && g "adopted" == toString (idle + 1 + wait) && g "half" == "ok"
+      && (g "wait" == "ok" || (wait == 0 && g "wait" == "na")) && (g "idle" == "ok" || (idle == 0 && g "idle" == "na"))
+      && (g "h1" == "ok" || (h1 == 0 && g "h1" == "na")) && g "new" == "srv" && g "exit" == "0"
+      && g "newreq" == toString (idle + 2)
+    verdict (joinWith " " impl == out) spec out
+  | _, _, _, _ => "E E bad-case"
+
 def run (caseToks impl : List String) : String :=
   match caseToks with
   | ["th", a, b] => th a b impl
@@ -258,6 +283,7 @@ def run (caseToks impl : List String) : String :=
   | ["ls", b, i, o] => ls b i o impl
   | ["sm", f, a] => sm f a impl
   | "gs" :: c => gs c impl
+  | "up" :: c => up c impl
   | _ => "E E unknown-kind"
 
 end MosnVerif.Drive.C11
